@@ -4,12 +4,19 @@ import (
 	"verif/harness/gen"
 )
 
+// scaleThorough adds larger sizes (set by the thorough tier).
+var scaleThorough bool
+
 var scaleSizes = []int{2, 7, 8, 9, 10, 11, 15, 16, 17, 31, 32, 33, 64, 100, 127, 128, 129, 199, 200, 201, 255, 256, 257, 300}
 
 // scalePrograms returns large programs of the grammar: many sibling groups at one
 // level, long pipelines, and deep nesting, for every size in scaleSizes (nesting up to 64).
 func scalePrograms() []*gen.Program {
 	var out []*gen.Program
+	sizes := scaleSizes
+	if scaleThorough {
+		sizes = append(append([]int{}, scaleSizes...), 511, 512, 513, 1000, 1024)
+	}
 	a, one := gen.Col("a"), gen.NumLit("1", "1")
 	where := func(e gen.Expr) *gen.Program {
 		return gen.Single(&gen.Pipeline{Source: gen.Ident{Name: "T"}, Ops: []gen.Op{&gen.Where{Kw: "where", Pred: e}}})
@@ -21,7 +28,7 @@ func scalePrograms() []*gen.Program {
 		}
 		return x
 	}
-	for _, n := range scaleSizes {
+	for _, n := range sizes {
 		// dense runs of one-letter operands (most nodes per byte) and of sort terms
 		letters := func(i int) gen.Expr { return gen.Col(string(rune('a' + i%26))) }
 		var terms []gen.SortTerm
